@@ -272,24 +272,20 @@ Section RZ.
     intros [a b c0 d e] C. constructor; cbn [c_meta c_elems]; auto; [discriminate|]. intros _ F. congruence.
   Qed.
 
-  Lemma zrem_all_rep clock z : RepZ clock z -> RepZ clock (fst (zrem_all compact z)).
+  Lemma zrem_all_rep clock lazy z : (lazy = true -> compact = true) -> RepZ clock z -> RepZ clock (fst (zrem_all lazy z)).
   Proof.
-    intros R. unfold zrem_all. destruct (zsize z =? 0); [exact R|].
+    intros LZ R. unfold zrem_all. destruct (zsize z =? 0); [exact R|].
     pose proof (zremove_rep clock (map snd (index_scan (zver z) (z_index z))) z R (index_scan_members_NoDup clock z _ R)) as HR.
-    assert (X : forall b, b = compact ->
-              RepZ clock (fst (if b then ({| z_c := Build_coll None (c_elems (z_c z)); z_index := z_index z |}, zsize z)
-                               else zremove (map snd (index_scan (zver z) (z_index z))) z))).
-    { intros b Hb. destruct b; cbn [fst]; [|exact HR].
-      constructor; cbn [z_c z_index c_elems]; [apply rep_meta_none; [apply (rz_c _ _ R)|symmetry; exact Hb]|apply (rz_i _ _ R)]. }
-    apply X; reflexivity.
+    destruct lazy; cbn [fst]; [|exact HR].
+    constructor; cbn [z_c z_index c_elems]; [apply rep_meta_none; [apply (rz_c _ _ R)|apply LZ; reflexivity]|apply (rz_i _ _ R)].
   Qed.
 
-  Lemma zrem_range_bytes_rep clock sel offset count z :
-    RepZ clock z -> RepZ clock (fst (zrem_range_bytes compact sel offset count z)).
+  Lemma zrem_range_bytes_rep clock lazy sel offset count z : (lazy = true -> compact = true) ->
+    RepZ clock z -> RepZ clock (fst (zrem_range_bytes lazy sel offset count z)).
   Proof.
-    intros R. unfold zrem_range_bytes. destruct (zsize z =? 0); [exact R|].
+    intros LZ R. unfold zrem_range_bytes. destruct (zsize z =? 0); [exact R|].
     destruct ((offset =? 0) && (zsize z <=? count)).
-    - pose proof (zrem_all_rep clock z R) as H. destruct (zrem_all compact z); exact H.
+    - pose proof (zrem_all_rep clock lazy z LZ R) as H. destruct (zrem_all lazy z); exact H.
     - destruct (max_batch_num <? count); [exact R|].
       pose proof (zremove_rep clock (map snd (limit offset count (filter sel (index_scan (zver z) (z_index z))))) z R) as H.
       destruct (zremove _ z) as [z' n]. cbn [fst] in *. apply H.
@@ -349,21 +345,21 @@ Section RZ.
       destruct (zremove (dedup [] (m0 :: r0)) z); exact H.
     - (* zremrangebyrank *)
       destruct (negb (key_ok key)); [exact Rm|].
-      destruct (zparse_limit (zsize z) start stop) as [offset count]. apply zrem_range_bytes_rep; exact Rm.
+      destruct (zparse_limit (zsize z) start stop) as [offset count]. apply zrem_range_bytes_rep; [apply lazy_clear_compact|exact Rm].
     - (* zremrangebyscore *)
       destruct lo as [l|]; [|exact Rm]. destruct hi as [h|]; [|exact Rm].
-      destruct (negb (key_ok key)); [exact Rm|]. apply zrem_range_bytes_rep; exact Rm.
+      destruct (negb (key_ok key)); [exact Rm|]. apply zrem_range_bytes_rep; [apply lazy_clear_compact|exact Rm].
     - (* zremrangebylex *)
       destruct (negb (key_ok key)); [exact Rm|].
       assert (Hrm : forall ms', NoDup ms' -> RepZ ts (fst (let '(z', n) := zremove ms' z in (z', RInt n)))).
       { intros ms' ND. pose proof (zremove_rep ts ms' z Rm ND) as H. destruct (zremove ms' z); exact H. }
-      assert (Hall : RepZ ts (fst (let '(z', n) := zrem_all compact z in (z', RInt n)))).
-      { pose proof (zrem_all_rep ts z Rm) as H. destruct (zrem_all compact z); exact H. }
+      assert (Hall : RepZ ts (fst (let '(z', n) := zrem_all (lazy_clear compact ts (zver z)) z in (z', RInt n)))).
+      { pose proof (zrem_all_rep ts _ z (lazy_clear_compact compact ts (zver z)) Rm) as H. destruct (zrem_all (lazy_clear compact ts (zver z)) z); exact H. }
       assert (NDs : NoDup (filter (in_lex lo hi lopen ropen) (map fst (scan (zver z) (c_elems (z_c z)))))).
       { apply NoDup_filter. apply scan_keys_NoDup. destruct Rm as [Rc _]. apply (rc_nodup _ _ _ Rc). }
       destruct lo, hi; auto.
     - (* zclear *)
       destruct (negb (key_ok key)); [exact Rm|].
-      pose proof (zrem_all_rep ts z Rm) as H. destruct (zrem_all compact z); exact H.
+      pose proof (zrem_all_rep ts _ z (lazy_clear_compact compact ts (zver z)) Rm) as H. destruct (zrem_all (lazy_clear compact ts (zver z)) z); exact H.
   Qed.
 End RZ.
